@@ -1,0 +1,35 @@
+//go:build verif
+
+// Contracts for package transform, read by /verif's govc. Comment-only.
+package transform
+
+// The tree set is used through these trusted contracts (the recursive insert / walk over heap-allocated
+// nodes with a caller-supplied comparator is not verified): Insert reports whether the coordinate was new,
+// the first insertion into an empty set always is; ToFlatArray returns a fresh array of size*stride cells.
+//@ func TreeSet.Insert
+//@   trusted
+//@   requires len(coord) >= strideOf(set.layout)
+//@   ensures set.size == old(set.size) + (res ? 1 : 0) && (old(set.size) == 0 ==> res) && set.layout == old(set.layout) && set.size >= 0
+//@   modifies *set
+
+//@ func TreeSet.ToFlatArray
+//@   trusted
+//@   ensures fresh(res) && len(res) == mul(set.size, strideOf(set.layout))
+//@   modifies nothing
+
+//@ func NewTreeSet
+//@   ensures fresh(res) && res.size == 0 && res.layout == layout
+//@   modifies nothing
+
+// C13: the de-duplicated coordinates are a fresh array holding a whole number of coordinates, at least one
+// when the input has one, never more than the input
+//@ func UniqueCoords
+//@   lemmas mulCancel, mulCancel2, mulNonneg, mulMono
+//@   requires strideOf(layout) >= 2 && whole(len(coordData), strideOf(layout))
+//@   ensures fresh(res) && whole(len(res), strideOf(layout)) && len(res) <= len(coordData) && (len(coordData) > 0 ==> len(res) >= strideOf(layout))
+//@   modifies nothing
+//@   loop 1:
+//@     ghost m int = 0 step m + 1
+//@     invariant m >= 0 && i == mul(m, stride) && stride == strideOf(layout) && mul(m + 1, stride) == mul(m, stride) + stride && len(coordData) == mul(cnt(len(coordData), stride), stride) && i <= len(coordData)
+//@     invariant fresh(set) && set.layout == layout && set.size == numCoordsAdded && 0 <= numCoordsAdded && numCoordsAdded <= m && (m > 0 ==> numCoordsAdded >= 1)
+//@     invariant fresh(uniqueCoords) && cap(uniqueCoords) == len(coordData) && len(uniqueCoords) == mul(numCoordsAdded, stride) && mul(numCoordsAdded + 1, stride) == mul(numCoordsAdded, stride) + stride
